@@ -568,10 +568,17 @@ IsCoreNode(k, n) == n \in CoreNames[k]
 Reduced == TLCEval([ k \in Kinds |-> TLCEval({ m \in Muts[k] : ReducedArg(m) /\ IsCoreNode(k, m.n) }) ])
 Context == TLCEval([ k \in Kinds |-> TLCEval({ m \in Muts[k] : IsContext(m) }) ])
 
+(* second mutation after a context mutation: every mutation of a core node class (the
+   per-extension classes add nothing to a key / algorithm / self-issue context); for the
+   kind "tbs", whose tree is the certificate's, only the reduced set *)
+AfterContext == TLCEval([ x \in Kinds |-> TLCEval(IF x = "tbs" THEN Reduced[x] ELSE { m \in Muts[x] : IsCoreNode(x, m.n) }) ])
+After(k) == AfterContext[k]
+CanFollow(k, m1, m2) ==
+  \/ /\ IsContext(m1) /\ m2 \in After(k) /\ (~IsContext(m2) \/ m2.n # m1.n)
+  \/ /\ m1 \in Reduced[k] /\ m2 \in Reduced[k] /\ m2.n # m1.n
+
 Programs1(k) == { <<>> } \cup { <<m>> : m \in Muts[k] }
-Programs2(k) ==
-  UNION { { <<c, m>> : m \in { x \in Muts[k] : ~IsContext(x) \/ x.n # c.n } } : c \in Context[k] }
-  \cup UNION { { <<a, b>> : b \in { x \in Reduced[k] : x.n # a.n } } : a \in Reduced[k] }
+Programs2(k) == UNION { { <<a, b>> : b \in { x \in Muts[k] : CanFollow(k, a, x) } } : a \in Context[k] \cup Reduced[k] }
 Programs(k, depth) == IF depth <= 1 THEN Programs1(k) ELSE Programs1(k) \cup Programs2(k)
 
 WellFormed(k, prog) ==
